@@ -196,6 +196,17 @@ func checkC16(r *run, c *AudioCase) (CaseInfo, error) {
 		if !(&codecs.OpusPartitionHeadChecker{}).IsPartitionHead(arg) {
 			return ci, failf("OpusPartitionHeadChecker reports false")
 		}
+		// an Opus packet carried inside another payload (a wrapper stripped by the caller): the same value decodes a
+		// sub-slice of what it holds
+		if c.Len >= 3 {
+			inner := p.Payload[2:]
+			want := clone(inner)
+			got, err := p.Unmarshal(inner)
+			if err != nil || !bytes.Equal(got, want) || !bytes.Equal(p.Payload, want) {
+				return ci, failf("OpusPacket.Unmarshal of a sub-slice of its own Payload (offset 2 of %d bytes): returned %s, field %s, want %s (err %v)", c.Len, hx(got), hx(p.Payload), hx(want), err)
+			}
+			ci.class("decode-from-own-payload")
+		}
 		// the same OpusPacket decodes further payloads (shorter, equal, longer ones): each comes back unchanged
 		for k, l := range c.More {
 			in2 := expand(c.Seed+uint64(k)+1, c.Pattern, l)
